@@ -457,16 +457,19 @@ def b_getlogger(I, a, k, node):
 def b_codecs_lookup(I, a, k, node):
     v = a[0]
     mk = ('codecs.lookup', id(v))
-    if mk in I.memo and isinstance(v, Unk) and 'codec-ok' in v.facts:
+    if mk in I.memo and isinstance(v, Unk) and 'codec-exists' in v.facts:
         return I.memo[mk]
-    if not codec_ok(v):
+    if not (codec_ok(v) or (isinstance(v, Unk) and 'codec-exists' in v.facts)):
         excs = ['LookupError']
         kv = kind_of(v)
         if kv is None or not kv <= {'str'}:
             excs.append('TypeError')
         I.may_raise(node, excs, 'codec lookup of unvalidated name', (v,))
     if isinstance(v, Unk):
-        v.facts.add('codec-ok')
+        # the registry knows the name; that does NOT make it a text encoding
+        # (str.encode / bytes.decode raise LookupError for e.g. 'base64')
+        v.facts.add('codec-exists')
+        v.restrict(['str'])
     o = Unk('codecinfo', kinds=['obj'], taint=tj(v), src=('call', 'codecs.lookup', a))
     I.memo[mk] = o
     return o
@@ -736,7 +739,17 @@ def m_join(I, recv, a, k, node, kind):
 
 
 def m_format(I, recv, a, k, node, kind):
-    return Unk('format', kinds=['str'], taint=tj(recv, *a, *k.values()), src=('format', recv, list(a) + list(k.values())))
+    if is_concrete(recv) and all(is_concrete(x) for x in list(a) + list(k.values())):
+        try:
+            return concrete(recv).format(*[concrete(x) for x in a], **{kk: concrete(v) for kk, v in k.items()})
+        except Exception:
+            pass
+    u = Unk('format', kinds=['str'], taint=tj(recv, *a, *k.values()), src=('format', recv, list(a) + list(k.values())))
+    if is_concrete(recv):
+        import re as _re
+        if _re.sub(r'\{[^{}]*\}', '', concrete(recv)):
+            u.facts.add('truthy')
+    return u
 
 
 def m_strsimple(I, recv, a, k, node, kind):
@@ -1161,6 +1174,19 @@ def m_streamother(I, recv, a, k, node, kind):
     return Unk(node.func.attr, taint=taint_of(recv) | {'INPUT'}, kinds=['bytes'] if node.func.attr.startswith('read') or node.func.attr == 'peek' else None)
 
 
+class SharedSet(object):
+    """Stand-in for a module/class-level set constant that is being mutated."""
+
+    def __init__(self, values):
+        self.shared = 'set constant %s' % sorted(map(str, values))
+
+
+def m_set_mutate(I, recv, a, k, node, kind):
+    # folded sets are module/class-level constants (or literals built from them)
+    I.effect('mutate', node, {'obj': SharedSet(recv), 'op': 'set.%s' % node.func.attr})
+    return None
+
+
 def m_logger(I, recv, a, k, node, kind):
     return None
 
@@ -1182,5 +1208,5 @@ METHODS = {
     'read': m_read, 'write': m_write, 'seek': m_seek, 'getvalue': m_getvalue, 'close': m_close,
     'readline': m_streamother, 'readlines': m_streamother, 'tell': m_streamother, 'flush': m_streamother,
     'truncate': m_streamother, 'peek': m_streamother, 'read1': m_streamother, 'readinto': m_streamother,
-    'writelines': m_streamother,
+    'writelines': m_streamother, 'mutate': m_set_mutate,
 }
